@@ -35,8 +35,8 @@ pub fn main(args: &Args) -> i32 {
     let f = std::fs::File::create(args.get("out", "/dev/stdout")).expect("cannot create output file");
     let mut w = BufWriter::new(f);
     let mut r = Rng::new(seed);
-    // (days, versions, age_days or None, since) cases
-    let mut cases: Vec<(i64, u32, Option<i64>, u32)> = vec![];
+    // (days, versions, age_days or None, since, offset) cases: the snapshot's timestamp is now - age days - offset seconds
+    let mut cases: Vec<(i64, u32, Option<i64>, u32, i64)> = vec![];
     let mut lu = ladder_u32();
     let mut li = ladder_i64();
     if dense {
@@ -53,26 +53,28 @@ pub fn main(args: &Args) -> i32 {
     }
     for tv in &lu {
         for s in points(*tv as u128, (u32::MAX - 3) as u128) {
-            cases.push((14, *tv, Some(1), s as u32));
+            cases.push((14, *tv, Some(1), s as u32, 3600));
         }
     }
     for td in &li {
         // ages representable by chrono: up to ~ 90 million days
         for d in points(*td as u128, 90_000_000) {
-            cases.push((*td, 100, Some(d as i64), 0));
+            cases.push((*td, 100, Some(d as i64), 0, 3600));
+            // a minute short of `d` whole days: `d - 1` days old, although the calendar dates are `d` apart
+            cases.push((*td, 100, Some(d as i64), 0, -60));
         }
     }
     // both measures at once, small values
     for _ in 0..(if dense { 300 } else { 60 }) {
         let td = *r.pick(&[1i64, 2, 3, 7, 14]);
         let tv = *r.pick(&[1u32, 2, 3, 7, 100]);
-        cases.push((td, tv, Some(r.below(3 * td as usize + 2) as i64), r.below(3 * tv as usize + 2) as u32));
+        cases.push((td, tv, Some(r.below(3 * td as usize + 2) as i64), r.below(3 * tv as usize + 2) as u32, *r.pick(&[3600i64, -60, -43_200, 43_200, 86_399])));
     }
     // no snapshot at all
-    cases.push((14, 100, None, 0));
-    cases.push((i64::MAX, u32::MAX, None, 0));
+    cases.push((14, 100, None, 0, 0));
+    cases.push((i64::MAX, u32::MAX, None, 0, 0));
     actix_rt::System::new().block_on(async {
-        for (k, (td, tv, age, since)) in cases.iter().enumerate() {
+        for (k, (td, tv, age, since, offset)) in cases.iter().enumerate() {
             if k % nshards != shard {
                 continue;
             }
@@ -96,14 +98,14 @@ pub fn main(args: &Args) -> i32 {
                 rn.run_op(&AOp::Av { ci: 0, p: IdRef::Nil, payload: PayloadSpec { kind: 1, len: 1, seed: 0 }, cuts: 0 }).await;
                 if let Some(age) = age {
                     let vid = rn.known.chain[0].last().cloned().unwrap_or(Uuid::nil());
-                    let ts = unix_now() - age * 86400 - 3600;
+                    let ts = unix_now() - age * 86400 - offset;
                     let res: anyhow::Result<()> = (|| {
                         let mut t = rn.sut.storage.txn(c)?;
                         t.set_snapshot(Snapshot { version_id: vid, timestamp: chrono::TimeZone::timestamp_opt(&chrono::Utc, ts, 0).single().ok_or_else(|| anyhow::anyhow!("ts"))?, versions_since: *since }, vec![1, 2, 3])?;
                         t.commit()?;
                         Ok(())
                     })();
-                    rn.out.line(&format!("# i=1 op=set_snapshot age={age} since={since}"));
+                    rn.out.line(&format!("# i=1 op=set_snapshot age={age} since={since} offset={offset}"));
                     rn.out.line(&format!("set_snapshot {c} {vid} {ts} {since} hex:010203 => {}", if res.is_ok() { "ok" } else { "err" }));
                     rn.known.snap[0] = Some(vid);
                     rn.dump_all();
